@@ -5,7 +5,7 @@
    for n > 30 it is [qci_normal band n c l1 r1] where l1 = norm.InvCDF((1-c)/2), r1 = 2 mu - l1 and
    band l r = Phi(r - 1/2) - Phi(l - 1/2) for the CDF Phi of the approximating normal. *)
 From MM Require Import Base.Num Base.GFSum Model.Choose Model.Binom Model.QuantileCI
-                       Proofs.Binom Proofs.QuantileCI.
+                       Proofs.Binom Proofs.QuantileCI Proofs.QuantileCISet.
 From Coq Require Import Sorted Permutation.
 Local Open Scope Q_scope.
 
@@ -107,6 +107,19 @@ Theorem C11_sample_ci_panics : forall N lo hi w sf xs,
   w = true \/ Z.of_nat (length xs) <> N -> sample_ci N lo hi w sf xs = SciPanic.
 Proof. exact sample_ci_panics. Qed.
 Print Assumptions C11_sample_ci_panics.
+
+(* The comparator does not demand the deterministic outcome: float comparisons whose two sides are
+   within 2^-40 of each other may go either way (DESIGN 4.5), so it computes the SET of admissible
+   outcomes (a c-independent transition graph walked for each c, with a scale factor sc that keeps
+   the numbers integral).  That set always contains the result of the deterministic greedy
+   accumulation the theorems above are about — for any window 1/ieps (0 = none), any PMF P. *)
+Theorem C11_admissible_set_contains_model : forall (P : Z -> Q) (ieps sc : Q), 0 < sc ->
+  forall n x c g r,
+  qci_graph P ieps n [x] = Some g -> qci_small P n x c = Some r ->
+  exists r', In r' (qci_small_set P ieps n g sc (sc * c)) /\
+             r_lo r' = r_lo r /\ r_hi r' = r_hi r /\ r_amb r' = r_amb r /\ r_conf r' == r_conf r.
+Proof. exact set_contains_det. Qed.
+Print Assumptions C11_admissible_set_contains_model.
 
 (* ---------- non-vacuity ---------- *)
 Example C11_small_example :
